@@ -52,6 +52,17 @@ def generate(rng, tier):
     for f in files:
         for route in "mf":
             out.append((f"facc {route} {hx(f)}", True))
+        # history: the same caller buffer / descriptor is loaded, altered in place (same length) and loaded again;
+        # the verdict must follow the bytes (valid, corrupted, valid, corrupted ...)
+        if len(f) <= 600:
+            for route in "mf":
+                seq = [f]
+                for _ in range(3):
+                    g = bytearray(f)
+                    k = rng.randrange(10 if len(f) > 10 else 6, len(f))
+                    g[k] ^= 1 << rng.randrange(8)
+                    seq += [bytes(g), f]
+                out.append((f"faccseq {route} " + " ".join(hx(x) for x in seq), True))
         nbits = (len(f) - 6) * 8
         if thorough or len(f) <= 257:
             flips = range(nbits)
